@@ -11,6 +11,22 @@ From NpTdms Require Import Base.Bytes Base.Res Model.Tokens Model.TokensWf Model
   Proofs.TokensRoundtrip Proofs.ByteStrProofs Proofs.StrictParseProofs Proofs.WriterProofs.
 Local Open Scope Z_scope.
 
+(* List facts stated for abstract predicates.  They are used by rewriting: letting the
+   kernel convert [forallb wf_obj (WChan ... :: _)] with its unfolding makes it normalise
+   [wf_obj] of a constructor, which is very slow. *)
+Lemma forallb_cons {A} (p : A -> bool) x l : forallb p (x :: l) = p x && forallb p l.
+Proof. reflexivity. Qed.
+
+Lemma forallb_single {A} (p : A -> bool) x : forallb p [x] = p x.
+Proof. cbn [forallb]. apply andb_true_r. Qed.
+
+Lemma forallb_singletons {A B} (p : B -> bool) (f : A -> B) l :
+  forallb (forallb p) (map (fun x => [f x]) l) = forallb p (map f l).
+Proof.
+  induction l as [|x l IH]; [reflexivity|].
+  cbn [map]. rewrite (forallb_cons (forallb p)), forallb_single, (forallb_cons p), IH. reflexivity.
+Qed.
+
 (* ---- the plan with its final state ---------------------------------------------------- *)
 
 Fixpoint plan (v : Z) (st : wstate) (calls : list (list wobj)) : res (list segsyn * wstate) :=
@@ -124,7 +140,7 @@ Proof.
 Qed.
 
 Lemma chans_plan v g : forall chs st,
-  forallb (fun ch => wf_obj (defrag_chan g ch)) chs = true ->
+  forallb wf_obj (map (defrag_chan g) chs) = true ->
   root_written st = true -> bmem g (groups_written st) = true ->
   exists segs st',
     plan v st (map (fun ch => [defrag_chan g ch]) chs) = Ok (segs, st') /\
@@ -133,20 +149,20 @@ Lemma chans_plan v g : forall chs st,
 Proof.
   induction chs as [|ch r IH]; intros st Hwf Hr Hg.
   - exists [], st. repeat split; assumption.
-  - cbn [forallb] in Hwf. apply andb_prop in Hwf. destruct Hwf as [Hc Hwr].
+  - rewrite map_cons, forallb_cons in Hwf. apply andb_prop in Hwf. destruct Hwf as [Hc Hwr].
     assert (Hp : pairs_of st [defrag_chan g ch] = [defrag_chan g ch])
       by (apply pairs_chan; assumption).
     destruct (plan_single v st _ Hc Hp) as [s [Hs Hv]].
-    set (st1 := mkW true (groups_written st ++ groups_included [defrag_chan g ch] ++
-                          groups_to_add st [defrag_chan g ch])) in *.
+    remember (mkW true (groups_written st ++ groups_included [defrag_chan g ch] ++
+                        groups_to_add st [defrag_chan g ch])) as st1 eqn:Hst1.
+    assert (Hr1 : root_written st1 = true) by (rewrite Hst1; reflexivity).
     assert (Hg1 : bmem g (groups_written st1) = true).
-    { unfold st1. cbn [groups_written]. rewrite bmem_app, Hg. reflexivity. }
-    destruct (IH st1 Hwr eq_refl Hg1) as [segs [st' [Hpl [Hvs [Hr' Hg']]]]].
+    { rewrite Hst1. cbn [groups_written]. rewrite bmem_app, Hg. reflexivity. }
+    destruct (IH st1 Hwr Hr1 Hg1) as [segs [st' [Hpl [Hvs [Hr' Hg']]]]].
     exists (s :: segs), st'. split.
-    + change (map (fun ch0 => [defrag_chan g ch0]) (ch :: r))
-        with ([[defrag_chan g ch]] ++ map (fun ch0 => [defrag_chan g ch0]) r).
-      rewrite (plan_app v _ st _ [s] st1 segs st' Hs Hpl). reflexivity.
-    + cbn [map]. rewrite Hv, Hvs, view_chan. repeat split; assumption.
+    + rewrite map_cons.
+      apply (plan_app v [[defrag_chan g ch]] st _ [s] st1 segs st' Hs Hpl).
+    + rewrite !map_cons, Hv, Hvs, view_chan. repeat split; assumption.
 Qed.
 
 Definition group_views (g : dgroup) : list (list obj_view) :=
@@ -161,28 +177,21 @@ Lemma group_plan v g st :
     map seg_view segs = group_views g /\ root_written st' = true.
 Proof.
   intros Hwf Hr. unfold defrag_group_calls in *.
-  cbn [forallb] in Hwf. apply andb_prop in Hwf. destruct Hwf as [Hg Hchs].
-  rewrite andb_true_r in Hg.
-  assert (Hchs' : forallb (fun ch => wf_obj (defrag_chan (dg_name g) ch)) (dg_chans g) = true).
-  { clear - Hchs. induction (dg_chans g) as [|ch r IH]; [reflexivity|].
-    cbn [map forallb] in *. apply andb_prop in Hchs. destruct Hchs as [H1 H2].
-    rewrite andb_true_r in H1. rewrite H1, (IH H2). reflexivity. }
+  rewrite forallb_cons, forallb_single, forallb_singletons in Hwf.
+  apply andb_prop in Hwf. destruct Hwf as [Hg Hchs].
   destruct (plan_single v st _ Hg (pairs_group st _ _ Hr)) as [s [Hs Hv]].
-  set (st1 := mkW true (groups_written st ++
-                        groups_included [WGroup (dg_name g) (dg_props g)] ++
-                        groups_to_add st [WGroup (dg_name g) (dg_props g)])) in *.
+  remember (mkW true (groups_written st ++
+                      groups_included [WGroup (dg_name g) (dg_props g)] ++
+                      groups_to_add st [WGroup (dg_name g) (dg_props g)])) as st1 eqn:Hst1.
+  assert (Hr1 : root_written st1 = true) by (rewrite Hst1; reflexivity).
   assert (Hg1 : bmem (dg_name g) (groups_written st1) = true).
-  { unfold st1. cbn [groups_written groups_included flat_map app]. rewrite !bmem_app.
+  { rewrite Hst1. cbn [groups_written groups_included flat_map app]. rewrite !bmem_app.
     unfold bmem at 2. cbn [existsb]. rewrite bytes_eqb_refl. cbn [orb]. apply orb_true_r. }
-  destruct (chans_plan v (dg_name g) (dg_chans g) st1 Hchs' eq_refl Hg1)
+  destruct (chans_plan v (dg_name g) (dg_chans g) st1 Hchs Hr1 Hg1)
     as [segs [st' [Hpl [Hvs [Hr' _]]]]].
   exists (s :: segs), st'. split; [|split; [|exact Hr']].
-  - change ([WGroup (dg_name g) (dg_props g)] ::
-            map (fun ch => [defrag_chan (dg_name g) ch]) (dg_chans g))
-      with ([[WGroup (dg_name g) (dg_props g)]] ++
-            map (fun ch => [defrag_chan (dg_name g) ch]) (dg_chans g)).
-    rewrite (plan_app v _ st _ [s] st1 segs st' Hs Hpl). reflexivity.
-  - cbn [map]. rewrite Hv, Hvs. reflexivity.
+  - apply (plan_app v [[WGroup (dg_name g) (dg_props g)]] st _ [s] st1 segs st' Hs Hpl).
+  - rewrite map_cons, Hv, Hvs. reflexivity.
 Qed.
 
 Lemma groups_plan v : forall gs st,
@@ -208,18 +217,17 @@ Theorem defrag_syntax v c :
   exists segs, syntax_of_calls v (defrag_calls c) = Ok segs /\
                map seg_view segs = defrag_expected c.
 Proof.
-  intros Hwf. unfold defrag_calls in *. cbn [forallb] in Hwf.
-  apply andb_prop in Hwf. destruct Hwf as [Hroot Hgs]. rewrite andb_true_r in Hroot.
+  intros Hwf. unfold defrag_calls in *. rewrite forallb_cons, forallb_single in Hwf.
+  apply andb_prop in Hwf. destruct Hwf as [Hroot Hgs].
   destruct (plan_single v w_init _ Hroot (pairs_root w_init _)) as [s [Hs Hv]].
-  set (st1 := mkW true (groups_written w_init ++ groups_included [WRoot (d_root_props c)] ++
-                        groups_to_add w_init [WRoot (d_root_props c)])) in *.
-  destruct (groups_plan v (d_groups c) st1 Hgs eq_refl) as [segs [st2 [Hp Hvs]]].
+  remember (mkW true (groups_written w_init ++ groups_included [WRoot (d_root_props c)] ++
+                      groups_to_add w_init [WRoot (d_root_props c)])) as st1 eqn:Hst1.
+  assert (Hr1 : root_written st1 = true) by (rewrite Hst1; reflexivity).
+  destruct (groups_plan v (d_groups c) st1 Hgs Hr1) as [segs [st2 [Hp Hvs]]].
   exists (s :: segs). split.
   - unfold syntax_of_calls. apply (plan_syntax v _ w_init _ st2).
-    change ([WRoot (d_root_props c)] :: flat_map defrag_group_calls (d_groups c))
-      with ([[WRoot (d_root_props c)]] ++ flat_map defrag_group_calls (d_groups c)).
-    rewrite (plan_app v _ w_init _ [s] st1 segs st2 Hs Hp). reflexivity.
-  - cbn [map]. rewrite Hv, Hvs. unfold defrag_expected, group_views. reflexivity.
+    apply (plan_app v [[WRoot (d_root_props c)]] w_init _ [s] st1 segs st2 Hs Hp).
+  - rewrite map_cons, Hv, Hvs. unfold defrag_expected, group_views. reflexivity.
 Qed.
 
 (* wr_session is wr_file with one session *)
@@ -250,7 +258,7 @@ Proof.
   apply syntax_file_single in Hs.
   assert (Hobjs : forallb (forallb wf_obj) (defrag_calls c) = true).
   { unfold wf_file in Hwf. apply andb_prop in Hwf. destruct Hwf as [H _].
-    cbn [forallb snd] in H. rewrite andb_true_r in H. exact H. }
+    rewrite forallb_single in H. exact H. }
   destruct (defrag_syntax v c Hobjs) as [segs' [Hs' Hv]].
   rewrite Hs in Hs'. injection Hs' as <-. exact Hv.
 Qed.
